@@ -346,7 +346,7 @@ CHECKS = {
         'table. The executable Lean model is tied to cirq.value.digits, cirq.study.result by differential correspondence on '
         'generated inputs (0..130-bit values, 0..70 qubits, qudit digits, repeated keys, malformed stream). The shapes the samplers report for '
         'circuits with sub-circuit operations are read off the unrolling specification (Model.C12.recordShapes; C12_instances_repeated: a body repeated n times '
-        'records each of its keys n times as often) for generated nestings, at zero and at two repetitions.',
+        'records each of its keys n times as often; C12_loop_instances: the same for the loops of the specification without repetition ids, whose full keys do not depend on the iteration) for generated nestings, at zero and at two repetitions.',
         'Trusted: Lean kernel; harness + driver (T2 sees generated inputs only); numpy/pandas container semantics. Sampler '
         'entry points are compared against the model of the base class with a counting fake sampler.',
         'Lean 4 proof (induction over digit lists) + differential correspondence model/implementation',
